@@ -165,21 +165,32 @@ Print Assumptions C15_unchanged_list_is_noop.
     with the files: from a state in which list IDs are unique, every enabled
     list's rule count and checksum are those of its stored file (zero without
     a file) and every disabled list is unloaded, every history of refreshes
-    (block / allow, forced / scheduled, any sources, failing renames included)
-    and of set_url calls that rename, enable or disable a list leads to such a
-    state again. *)
-Theorem C15_metadata_in_step : forall crc hs st, wf crc st -> wf crc (run_hist crc hs st).
+    (block / allow, forced / scheduled, any sources, failing renames included),
+    of engine rebuilds and of set_url calls that rename, enable, disable or
+    re-point a list leads to such a state again, provided no call of the
+    history is a FAILING change of a list's URL (see
+    [C15_metadata_in_step_refuted] for that one). *)
+Theorem C15_metadata_in_step : forall crc hs st,
+  wf crc st -> Forall (hop_keeps_checksum crc) hs -> wf crc (run_hist crc hs st).
 Proof. exact history_wf. Qed.
 Print Assumptions C15_metadata_in_step.
 
-(** ... so after any history the rule count and the checksum of an enabled
-    list are those of re-parsing its stored file, which reproduces the file. *)
+(** ... so after any such history the rule count and the checksum of an
+    enabled list are those of re-parsing its stored file, which reproduces the
+    file. *)
 Theorem C15_metadata_describe_file : forall crc hs st l c,
-  wf crc st -> let st' := run_hist crc hs st in
+  wf crc st -> Forall (hop_keeps_checksum crc) hs -> let st' := run_hist crc hs st in
   In l (r_block st' ++ r_allow st') -> f_enabled l = true -> fget (f_id l) (r_files st') = Some c ->
   describes crc (f_count l) (f_sum l) c.
 Proof. exact history_meta_matches_file. Qed.
 Print Assumptions C15_metadata_describe_file.
+
+(** Without that proviso the statement is false for the code as it is: a
+    failing change of the URL of an enabled list restores URL, name, enabled
+    flag and rule count, not the checksum that [unload] has zeroed. *)
+Theorem C15_metadata_in_step_refuted : ~ metadata_in_step_statement crc32_update.
+Proof. exact metadata_in_step_refuted. Qed.
+Print Assumptions C15_metadata_in_step_refuted.
 
 (** ... and a source that delivers what is stored, in any spelling with the
     same normal form, does not make the file be replaced (A, A and the return
@@ -194,49 +205,106 @@ Theorem C15_stored_content_not_rewritten : forall crc b a force due oc st l c d 
 Proof. exact stored_content_not_rewritten. Qed.
 Print Assumptions C15_stored_content_not_rewritten.
 
-(** Enabling a disabled (unloaded) list through set_url, its source delivering
-    a list text: no error, the engine is rebuilt from the files and what is in
-    force for the list is the normal form of that text, also when the bytes are
-    those stored before it was disabled; a text without rules (checksum of an
-    unloaded list) leaves nothing stored and nothing in force. *)
-Theorem C15_enable_puts_rules_in_force : forall crc allow i name d re pst st pre f post,
-  arr allow st = pre ++ f :: post -> Forall (other_id i) pre -> f_id f = i ->
+(** set_url finds the entry by its URL [u].  Enabling a disabled (unloaded)
+    list with the URL kept, its source delivering a list text: no error, the
+    engine is rebuilt from the files and what is in force for the list is the
+    normal form of that text, also when the bytes are those stored before it
+    was disabled; a text without rules (checksum of an unloaded list) leaves
+    nothing stored and nothing in force. *)
+Theorem C15_enable_puts_rules_in_force : forall crc allow u i name d re pst st pre f post,
+  arr allow st = pre ++ f :: post -> Forall (other_url u) pre -> f_url f = u -> f_id f = i ->
   f_enabled f = false -> f_sum f = 0 ->
   parse crc d re = (pst, None) ->
-  let '(rs, er, st') := set_props crc allow i name true (OBody d re) st in
+  let '(rs, er, st') := set_props crc allow u name u true (OBody d re) st in
   er = false /\ rs = true /\ engine_consistent st' /\
   lookup i (eng_arr allow (r_engine st')) = (if p_sum pst =? 0 then None else Some (output pst)) /\
   fget i (r_files st') = (if p_sum pst =? 0 then None else Some (output pst)).
 Proof. exact enable_puts_rules_in_force. Qed.
 Print Assumptions C15_enable_puts_rules_in_force.
 
-(** Disabling an enabled list: the engine is rebuilt without it, its file
-    stays, its entry is unloaded (rule count and checksum zero). *)
-Theorem C15_disable_takes_rules_out : forall crc allow i name o st pre f post,
-  arr allow st = pre ++ f :: post -> Forall (other_id i) pre -> Forall (other_id i) post -> f_id f = i ->
-  f_enabled f = true ->
-  let '(rs, er, st') := set_props crc allow i name false o st in
+(** The same for every call that downloads into the entry, i.e. also when
+    the URL of a list (enabled or not) is replaced by one that no list has: the
+    entry gets the new URL, and the rules of the new source, in normal form,
+    are stored and in force; the old file is replaced, or removed when the new
+    source has no rules. *)
+Theorem C15_url_change_puts_rules_in_force : forall crc allow u i name nurl d re pst st pre f post,
+  arr allow st = pre ++ f :: post -> Forall (other_url u) pre -> f_url f = u -> f_id f = i ->
+  downloads f u nurl st ->
+  parse crc d re = (pst, None) ->
+  let '(rs, er, st') := set_props crc allow u name nurl true (OBody d re) st in
+  er = false /\ rs = true /\ engine_consistent st' /\
+  lookup i (eng_arr allow (r_engine st')) = (if p_sum pst =? 0 then None else Some (output pst)) /\
+  fget i (r_files st') = (if p_sum pst =? 0 then None else Some (output pst)) /\
+  exists f', arr allow st' = pre ++ f' :: post /\ f_id f' = i /\ f_url f' = nurl /\ f_enabled f' = true /\
+             f_sum f' = p_sum pst /\ ((p_sum pst =? 0) = false -> f_count f' = p_count pst).
+Proof. exact download_puts_rules_in_force. Qed.
+Print Assumptions C15_url_change_puts_rules_in_force.
+
+(** Disabling an enabled list (URL kept, or replaced by one no list has):
+    the engine is rebuilt without it, its file stays, its entry is unloaded
+    (rule count and checksum zero). *)
+Theorem C15_disable_takes_rules_out : forall crc allow u i name nurl o st pre f post,
+  arr allow st = pre ++ f :: post -> Forall (other_url u) pre ->
+  Forall (other_id i) pre -> Forall (other_id i) post -> f_url f = u -> f_id f = i ->
+  f_enabled f = true -> nurl = u \/ url_used nurl st = false ->
+  let '(rs, er, st') := set_props crc allow u name nurl false o st in
   er = false /\ rs = true /\ engine_consistent st' /\
   lookup i (eng_arr allow (r_engine st')) = None /\ r_files st' = r_files st /\
-  arr allow st' = pre ++ {| f_id := i; f_enabled := false; f_name := name; f_count := 0; f_sum := 0 |} :: post.
+  arr allow st' = pre ++ {| f_id := i; f_url := nurl; f_enabled := false; f_name := name; f_count := 0; f_sum := 0 |} :: post.
 Proof. exact disable_takes_rules_out. Qed.
 Print Assumptions C15_disable_takes_rules_out.
 
 (** Enabling with a failing source: an error, and nothing changes (files,
     entries, engine). *)
-Theorem C15_failed_enable_is_noop : forall crc allow i name o st pre f post,
-  arr allow st = pre ++ f :: post -> Forall (other_id i) pre -> f_id f = i ->
+Theorem C15_failed_enable_is_noop : forall crc allow u name o st pre f post,
+  arr allow st = pre ++ f :: post -> Forall (other_url u) pre -> f_url f = u ->
   f_enabled f = false -> fails crc o ->
-  set_props crc allow i name true o st = (false, true, st).
+  set_props crc allow u name u true o st = (false, true, st).
 Proof. exact failed_enable_is_noop. Qed.
 Print Assumptions C15_failed_enable_is_noop.
 
-(** Non-vacuity for the last six: a well-formed state with a stored list;
-    disabling takes its rule out of force and unloads it, enabling it again
-    with the same bytes puts the rule back (the file is replaced once more),
-    enabling with an HTML page changes nothing. *)
-Example C15_history_premises_satisfiable : wf crc32_update RExamples.st0 /\ wf crc32_update RExamples.st1.
-Proof. exact wf_example. Qed.
+(** A URL that another list (of either array) already has is refused:
+    an error, and nothing changes. *)
+Theorem C15_duplicate_url_is_noop : forall crc allow u name nurl en o st pre f post,
+  arr allow st = pre ++ f :: post -> Forall (other_url u) pre -> f_url f = u ->
+  nurl <> u -> url_used nurl st = true ->
+  set_props crc allow u name nurl en o st = (false, true, st).
+Proof. exact duplicate_url_is_noop. Qed.
+Print Assumptions C15_duplicate_url_is_noop.
+
+(** A FAILING change of a list's URL (new URL free, its source failing in any
+    of the enumerated ways), exactly: an error is reported; every file (bytes
+    and generation), the engine, i.e. the rules in force, the other array,
+    every other entry, and this entry's URL, name, enabled flag and rule count
+    are as before; its checksum is zero. *)
+Theorem C15_failed_url_change_forgets_checksum : forall crc allow u name nurl o st pre f post,
+  arr allow st = pre ++ f :: post -> Forall (other_url u) pre -> f_url f = u ->
+  nurl <> u -> url_used nurl st = false -> fails crc o ->
+  let '(rs, er, st') := set_props crc allow u name nurl true o st in
+  rs = false /\ er = true /\ r_files st' = r_files st /\ r_engine st' = r_engine st /\
+  arr (negb allow) st' = arr (negb allow) st /\
+  arr allow st' = pre ++ {| f_id := f_id f; f_url := u; f_enabled := f_enabled f; f_name := f_name f;
+                            f_count := f_count f; f_sum := 0 |} :: post.
+Proof. exact failed_url_change_forgets_checksum. Qed.
+Print Assumptions C15_failed_url_change_forgets_checksum.
+
+(** So the clause "a set_url call that reports an error leaves the state as
+    it was" is false for the code as it is (witness: a block list with one
+    stored rule, pointed to a source that answers with an HTML page). *)
+Theorem C15_failed_set_is_noop_refuted : ~ failed_set_is_noop_statement crc32_update.
+Proof. exact failed_set_is_noop_refuted. Qed.
+Print Assumptions C15_failed_set_is_noop_refuted.
+
+(** Non-vacuity for the set_url theorems: a well-formed state with a stored
+    list; disabling takes its rule out of force and unloads it, enabling it
+    again with the same bytes puts the rule back (the file is replaced once
+    more), enabling with an HTML page changes nothing; pointing it to another
+    source stores and enforces that source's rule, a URL that another list has
+    is refused, a failing source behind the new URL leaves everything but the
+    checksum. *)
+Example C15_history_premises_satisfiable :
+  wf crc32_update RExamples.st0 /\ wf crc32_update RExamples.st1 /\ wf crc32_update SetExamples.st_moved.
+Proof. exact (conj (proj1 wf_example) (conj (proj2 wf_example) url_change_wf)). Qed.
 
 Example C15_enable_disable_satisfiable :
   verdict (r_engine RExamples.st1) [112;49] = 2 /\
@@ -246,9 +314,26 @@ Example C15_enable_disable_satisfiable :
   fentry 1 (r_files SetExamples.st_off) = Some (1, RExamples.good) /\
   lookup 1 (e_block (r_engine SetExamples.st_on)) = Some RExamples.good /\
   fentry 1 (r_files SetExamples.st_on) = Some (2, RExamples.good) /\
-  set_props crc32_update false 1 [120] true (OBody RExamples.html false) SetExamples.st_off
+  set_props crc32_update false 1 [120] 1 true (OBody RExamples.html false) SetExamples.st_off
     = (false, true, SetExamples.st_off).
 Proof. exact set_example. Qed.
+
+Example C15_url_change_satisfiable :
+  map f_url (r_block SetExamples.st_moved) = [101] /\
+  fentry 1 (r_files SetExamples.st_moved) = Some (2, RExamples.good2) /\
+  lookup 1 (e_block (r_engine SetExamples.st_moved)) = Some RExamples.good2 /\
+  url_used 102 SetExamples.st_moved = false /\ url_used 11 SetExamples.st_moved = true /\
+  set_props crc32_update false 101 [120] 11 true (OBody RExamples.good false) SetExamples.st_moved
+    = (false, true, SetExamples.st_moved) /\
+  set_props crc32_update false 101 [120] 102 true (OBody RExamples.html false) SetExamples.st_moved
+    = (false, true, SetExamples.st_failed) /\
+  r_files SetExamples.st_failed = r_files SetExamples.st_moved /\
+  r_engine SetExamples.st_failed = r_engine SetExamples.st_moved /\
+  map f_url (r_block SetExamples.st_failed) = [101] /\
+  map f_count (r_block SetExamples.st_failed) = [1] /\
+  map f_sum (r_block SetExamples.st_moved) <> [0] /\
+  map f_sum (r_block SetExamples.st_failed) = [0].
+Proof. exact url_change_example. Qed.
 
 (** Non-vacuity: a successful refresh of a block and an allow list, then one
     where an HTML page and a connection error fail both: state unchanged. *)
